@@ -27,7 +27,7 @@ PROPS = {
         "level": "proof",
     },
     "C02": {
-        "gens": [{"name": "C02", "quick": 2500, "thorough": 12000}],
+        "gens": [{"name": "C02", "quick": 2500, "thorough": 12000}, {"name": "setters", "quick": 800, "thorough": 5000}],
         "nontrivial": {"inexact", "range"},
         "rule": ARITH_RULE + "non-trivial = accuracy must be Below or Above",
         "level": "proof",
@@ -51,7 +51,7 @@ PROPS = {
         "level": "proof",
     },
     "C09": {
-        "gens": [{"name": "C09", "quick": 250, "thorough": 1500}],
+        "gens": [{"name": "C09", "quick": 250, "thorough": 1500}, {"name": "setters", "quick": 600, "thorough": 4000}, {"name": "C20", "quick": 400, "thorough": 3000}],
         "nontrivial": {"inexact", "range", "alias", "special"},
         "rule": ARITH_RULE + "frame rule checked on Go's states and on the backing arrays up to capacity",
         "level": "proof",
@@ -61,6 +61,26 @@ PROPS = {
         "nontrivial": {"alias"},
         "rule": ARITH_RULE + "non-trivial = two argument positions are the same variable",
         "level": "proof",
+    },
+    "C05": {
+        "gens": [{"name": "C05", "quick": 2000, "thorough": 8000}],
+        "nontrivial": {"inexact", "perfect-square", "special", "nan"},
+        "rule": ARITH_RULE + "specification = Nat.sqrt of the scaled operand + sticky, rounded once; non-trivial = inexact root, perfect square, special operand or negative operand",
+    },
+    "C14": {
+        "gens": [{"name": "C14", "quick": 2500, "thorough": 12000}],
+        "nontrivial": {"inexact", "edge", "setint", "setrat", "newdec", "range"},
+        "rule": ARITH_RULE + "conversions Int Int64 Uint64 Rat IsInt MinPrec Sign and setters SetInt SetInt64 SetUint64 SetRat NewDecimal; non-trivial = truncation happened, value within the 2^63/2^64/10^19 edge band, or a big-integer/rational setter",
+    },
+    "C19": {
+        "gens": [{"name": "C19", "quick": 200, "thorough": 1200}],
+        "nontrivial": {"nan", "latched", "had-error", "propagates", "inexact"},
+        "rule": ARITH_RULE + "sequences of 3-40 context operations incl. NaN-producing operands, Err() calls and a nil operand (non-NaN panic); non-trivial = step that produces a NaN, runs while an error is latched, reads a recorded error, propagates a foreign panic, or rounds",
+    },
+    "C20": {
+        "gens": [{"name": "C20", "quick": 1500, "thorough": 8000}],
+        "nontrivial": {"leading-zero-words", "leading-zero-digits", "prec0", "range", "inexact", "mantexp", "setmantexp"},
+        "rule": ARITH_RULE + "SetBitsExp on arbitrary word slices (leading zero words/digits, all exponent classes incl. int64 extremes), MantExp/SetMantExp round trips and range edges",
     },
     "C16": {
         "gens": [{"name": "C16", "quick": 2000, "thorough": 15000}],
